@@ -20,14 +20,15 @@ None == [kind |-> "none"]
 Pick(i, n, k) == Full \/ (i + SeedN) % n < k
 
 E(lit, sum) == [lit |-> lit, sum |-> sum]
-RecOf(ord, should, rsum, entries) == [ord |-> ord, should |-> should, rsum |-> rsum, entries |-> entries]
+RecOf(ord, should, rsum, entries) == [ord |-> ord, should |-> should, rsum |-> rsum, entries |-> entries, dashes |-> TRUE]
+Slashed(r) == [r EXCEPT !.dashes = FALSE]
 
 RECURSIVE EntryText(_, _)
 EntryText(es, i) == IF i > Len(es) THEN ""
                     ELSE "    " \o es[i].lit \o (IF es[i].sum # "" THEN " " \o es[i].sum ELSE "") \o "\n" \o EntryText(es, i + 1)
 RECURSIVE LinesText(_)
 LinesText(ls) == IF ls = <<>> THEN "" ELSE Head(ls) \o "\n" \o LinesText(Tail(ls))
-RecText(r) == FormatDate(r.ord, TRUE) \o (IF r.should # "" THEN " (" \o r.should \o ")" ELSE "") \o "\n"
+RecText(r) == FormatDate(r.ord, r.dashes) \o (IF r.should # "" THEN " (" \o r.should \o ")" ELSE "") \o "\n"
               \o LinesText(r.rsum) \o EntryText(r.entries, 1)
 RECURSIVE FileText(_)
 FileText(rs) == IF rs = <<>> THEN "" ELSE IF Len(rs) = 1 THEN RecText(rs[1]) ELSE RecText(rs[1]) \o "\n" \o FileText(Tail(rs))
@@ -54,7 +55,9 @@ TotalRuns == <<Run("json", <<"json">>), Run("total:plain", <<"total", "--diff", 
                [Run("total:now", <<"total", "--diff", "--decimal", "--now", "--no-warn">>) EXCEPT !.now = TRUE],
                Run("total:hm", <<"total", "--diff", "--no-warn">>),
                Run("pwt", <<"print", "--with-totals", "--no-style", "--no-warn">>),
-               [Run("json:now", <<"json", "--now">>) EXCEPT !.now = TRUE]>>
+               [Run("json:now", <<"json", "--now">>) EXCEPT !.now = TRUE],
+               Run("today", <<"today", "--diff", "--decimal", "--no-warn">>),
+               [Run("today:now", <<"today", "--diff", "--decimal", "--now", "--no-warn">>) EXCEPT !.now = TRUE]>>
 TotalShards == {[k |-> "total", a |-> i, b |-> j] : i \in 1..NVals, j \in 0..NVals}
 TotalCases(sh) ==
     LET es == IF sh.b = 0 THEN <<E(Vals[sh.a], "")>> ELSE <<E(Vals[sh.a], "x"), E(Vals[sh.b], "#t")>>
@@ -62,9 +65,17 @@ TotalCases(sh) ==
         twoOpen == Cardinality({i \in 1..Len(es) : Ch(es[i].lit, Len(es[i].lit)) = "?"}) > 1
         dates == IF hasOpen THEN {T0, T0 - 1, T0 - 2, T0 + 1} ELSE {T0}
         mins == IF hasOpen THEN {0, 8 * 60 + 30, 17 * 60 + 59, 18 * 60, 23 * 60 + 59} ELSE {12 * 60}
-    IN  IF twoOpen \/ (~Pick(sh.a * 3 + sh.b, 3, 1) /\ sh.b # 0) THEN {}
+        (* a second record with its own open range, before or after: both must be closed at the same instant *)
+        extraOpen == {CaseOf(FileText(IF first THEN <<RecOf(d2, "", <<>>, <<E("6:00 - ?", "#o2")>>), RecOf(d, "", <<>>, es)>>
+                                      ELSE <<RecOf(d, "", <<>>, es), RecOf(d2, "", <<>>, <<E("6:00 - ?", "#o2")>>)>>),
+                             NowOf(T0, m), TotalRuns)
+                        : d \in {T0, T0 - 1}, d2 \in {T0, T0 - 1}, m \in {8 * 60 + 30, 23 * 60 + 59}, first \in BOOLEAN}
+    IN  IF hasOpen /\ ~twoOpen /\ sh.b = 0 THEN extraOpen \cup
+            {CaseOf(FileText(<<RecOf(d, Shoulds[2], <<>>, es), RecOf(T0, "1h!", <<>>, <<E("30m", "today")>>)>>), NowOf(T0, m), TotalRuns)
+                : d \in dates, m \in mins}
+        ELSE IF twoOpen \/ (~Pick(sh.a * 3 + sh.b, 3, 1) /\ sh.b # 0) THEN {}
         ELSE {CaseOf(FileText(<<RecOf(d, Shoulds[s], <<>>, es), RecOf(T0 - 5, Shoulds[1 + (s % 5)], <<"other">>, <<E("1h", "")>>),
-                               RecOf(d, "", <<>>, <<E("-15m", "dup date")>>)>>),
+                               RecOf(d, "", <<>>, <<E("-15m", "dup date")>>), RecOf(T0, "1h!", <<>>, <<E("30m", "today")>>)>>),
                      NowOf(T0, m), TotalRuns)
                 : d \in dates, m \in mins, s \in {ss \in 1..5 : Pick(ss + sh.a, 5, 2)}}
 
@@ -106,9 +117,10 @@ RefDates == <<Ord(2020, 3, 15), Ord(2020, 1, 1), Ord(2021, 1, 3), Ord(2020, 3, 1
 Offsets == <<-400, -366, -95, -35, -29, -8, -7, -6, -1, 0, 1, 6, 7, 31>>
 FilterFile(ref) ==
     [i \in 1..Len(Offsets) |->
-        RecOf(ref + Offsets[i], "", IF i % 4 = 0 THEN <<"day #rec=R" \o NatStr(i % 3) \o " #all">> ELSE <<>>,
-              <<E("1h", IF i % 2 = 0 THEN "#a #b=1" ELSE "#B=2 x"), E("8:00 - 9:00", IF i % 3 = 0 THEN "#a=x" ELSE ""),
-                E("-30m", "#c"), E("10:00 - ?", "#open")>>)]
+        LET r == RecOf(ref + Offsets[i], "", IF i % 4 = 0 THEN <<"day #rec=R" \o NatStr(i % 3) \o " #all">> ELSE <<>>,
+                       <<E("1h", IF i % 2 = 0 THEN "#a #b=1" ELSE "#B=2 x"), E("8:00 - 9:00", IF i % 3 = 0 THEN "#a=x" ELSE ""),
+                         E("-30m", "#c"), E("10:00 - ?", "#open")>>)
+        IN  IF i % 3 = 1 THEN Slashed(r) ELSE r]      \* both date notations in one file
 D(o) == FormatDate(o, TRUE)
 Q(at, since, until) == [NoQuery EXCEPT !.at = at, !.since = since, !.until = until]
 P(kind, o) == PeriodOf(kind, o)
@@ -171,16 +183,59 @@ FilterCases(sh) ==
     IN  {CaseOf(FileText(ordered), NowOf(ref, 600), SetToSeq(FilterRunsFor(ref)))}
 
 (***************************************************************************)
+(* shortcuts: every day of a non-leap and a leap year as reference date x   *)
+(* every relative shortcut; the file holds records at the boundaries of the *)
+(* period the shortcut denotes (the day before, first, last, the day after) *)
+(***************************************************************************)
+RECURSIVE SortedSeq(_)
+SortedSeq(S) == IF S = {} THEN <<>> ELSE LET m == CHOOSE x \in S : \A y \in S : x <= y IN <<m>> \o SortedSeq(S \ {m})
+ShortcutKinds == <<"this-week", "last-week", "this-month", "last-month", "this-quarter", "last-quarter", "this-year", "last-year",
+                   "today", "yesterday", "tomorrow">>
+ShortcutPeriod(k, ref) ==
+    LET kind == CASE k \in {"this-week", "last-week"} -> "week" [] k \in {"this-month", "last-month"} -> "month"
+                  [] k \in {"this-quarter", "last-quarter"} -> "quarter" [] k \in {"this-year", "last-year"} -> "year"
+                  [] OTHER -> "day"
+        cur == PeriodOf(kind, ref)
+    IN  CASE k = "yesterday" -> [since |-> ref - 1, until |-> ref - 1]
+          [] k = "tomorrow" -> [since |-> ref + 1, until |-> ref + 1]
+          [] k = "today" -> cur
+          [] StartsWith(k, "this-") -> cur
+          [] OTHER -> PeriodOf(kind, cur.since - 1)
+ShortcutShards == {[k |-> "shortcuts", a |-> y, b |-> m] : y \in {2023, 2024}, m \in 1..12}
+ShortcutCases(sh) ==
+    {LET ref == Ord(sh.a, sh.b, d)
+         k == ShortcutKinds[ki]
+         p == ShortcutPeriod(k, ref)
+         mid == (p.since + p.until) \div 2
+         ds == SortedSeq({p.since - 1, p.since, mid, p.until, p.until + 1, ref})
+         recs == [i \in 1..Len(ds) |-> RecOf(ds[i], "", <<>>, <<E("1h", "")>>)]
+     IN  CaseOf(FileText(recs), NowOf(ref, 700),
+                <<RunQ("json:" \o k, <<"json", "--" \o k>>, Q(-1, p.since, p.until)),
+                  RunQ("json:alias", <<"json", "--" \o (IF ki <= 8 THEN Take(k, 4) \o Drop(k, 5) ELSE k)>>, Q(-1, p.since, p.until))>>)
+        : d \in {dd \in 1..DaysInMonth(sh.a, sh.b) : Full \/ dd \in {1, 2, 15, 28, 29, 30, 31} \/ (dd + SeedN) % 5 = 0},
+          ki \in 1..Len(ShortcutKinds)}
+(***************************************************************************)
 (* tags: all short summaries over a tag alphabet                            *)
 (***************************************************************************)
 TagAlpha == <<"a", "B", "ä", "Ä", "日", "1", "#", "=", "\"", "'", "_", "-", " ", "!">>
 NA == Len(TagAlpha)
 TagRuns == <<Run("json", <<"json">>), Run("tags", <<"tags", "--values", "--count", "--decimal", "--no-warn">>)>>
 TagShards == {[k |-> "tags", a |-> i, b |-> j] : i \in 1..NA, j \in 1..NA} \cup {[k |-> "tags", a |-> 0, b |-> 0]}
+             \cup {[k |-> "tags", a |-> -1, b |-> j] : j \in 1..NA}
 Redundant == <<"#a #a", "#a=1 #a", "#a #a=1 #A=1", "#x=\"p q\" #x='p q' #x=p", "#t=1 #t=2 #T", "no tags at all", "#a-b_c=d-e_f",
-               "#日本=語 #ÄB", "(#a, #b); #c.", "#a=\"unterminated #b", "#a='x' #a=\"x\" #a=x", "##a #=b # c", "#a=b=c", "#a=\"\" #b=''">>
+               "#日本=語 #ÄB", "(#a, #b); #c.", "#a=\"unterminated #b", "#a='x' #a=\"x\" #a=x", "##a #=b # c", "#a=b=c", "#a=\"\" #b=''",
+               "#k=ab", "#k=AB #K=ab", "#K=Ab #k=aB", "#size='5\"' #note=\"'tbd'\"", "#q=\"'\" #r='\"'", "#v=\"a'b\" #w='a\"b'">>
+QuoteAlpha == <<"a", "\"", "'", " ", "B">>
 TagCases(sh) ==
-    IF sh.a = 0
+    IF sh.a = -1      \* values: `#a=` + three characters, and + four characters over the quote alphabet
+    THEN {CaseOf(FileText(<<RecOf(T0, "", <<"x">>,
+                           <<E("1h", "#a=" \o TagAlpha[sh.b] \o TagAlpha[c] \o TagAlpha[d] \o " #b"), E("2h", "#A=" \o TagAlpha[c] \o TagAlpha[sh.b])>>)>>),
+                 NowOf(T0, 720), TagRuns) : c, d \in 1..NA}
+         \cup (IF sh.b > Len(QuoteAlpha) THEN {} ELSE
+               {CaseOf(FileText(<<RecOf(T0, "", <<>>,
+                           <<E("1h", "#a=" \o QuoteAlpha[sh.b] \o QuoteAlpha[c] \o QuoteAlpha[d] \o QuoteAlpha[e] \o QuoteAlpha[f])>>)>>),
+                       NowOf(T0, 720), TagRuns) : c, d, e, f \in 1..Len(QuoteAlpha)})
+    ELSE IF sh.a = 0
     THEN {CaseOf(FileText(<<RecOf(T0, "", <<Redundant[i]>>, <<E("1h", Redundant[j]), E("30m", ""), E("8:00 - 9:00", Redundant[i])>>)>>),
                  NowOf(T0, 720), TagRuns) : i, j \in 1..Len(Redundant)}
     ELSE {CaseOf(FileText(<<RecOf(T0, "", <<"x">>,
@@ -218,9 +273,9 @@ StyleShards == {[k |-> "style", a |-> i, b |-> 0] : i \in 1..Len(StyleFiles)}
 StyleCases(sh) == {CaseOf(FileText(StyleFiles[sh.a]), NowOf(T0, 840), StyleRuns)}
 
 Shards == CASE Mode = "total" -> TotalShards [] Mode = "report" -> ReportShards [] Mode = "filter" -> FilterShards
-            [] Mode = "tags" -> TagShards [] Mode = "style" -> StyleShards
+            [] Mode = "tags" -> TagShards [] Mode = "style" -> StyleShards [] Mode = "shortcuts" -> ShortcutShards
 CasesOf(sh) == CASE sh.k = "total" -> TotalCases(sh) [] sh.k = "report" -> ReportCases(sh) [] sh.k = "filter" -> FilterCases(sh)
-                 [] sh.k = "tags" -> TagCases(sh) [] sh.k = "style" -> StyleCases(sh)
+                 [] sh.k = "tags" -> TagCases(sh) [] sh.k = "style" -> StyleCases(sh) [] sh.k = "shortcuts" -> ShortcutCases(sh)
 
 Init == shard \in Shards /\ case = None
 Next == /\ case = None
